@@ -8,7 +8,7 @@ from ..progspace import OPS_Q, OPS_T, PARAMS_X, PARAMS_XY, inputs_for, programs,
 from ..spaces import shard_iter
 
 ID = "C01"
-BUDGET = {"quick": 150, "thorough": 1200}
+BUDGET = {"quick": 300, "thorough": 1200}
 
 
 def n_lib_calls(prog) -> int:
